@@ -8,6 +8,6 @@ struct tv_store { int unused; };
 static int tv_valid(const struct tval *t) { return t->dummy == 0; }
 static void tv_build(const struct tval *t, TYPE_T *o, struct tv_store *s) { (void)s; (void)t; *o = 0; }
 static int tv_match(const struct tval *t, const TYPE_T *o) { (void)t; (void)o; return 1; }
-static size_t ref_der(const struct tval *t, uint8_t *out, size_t cap) { struct rbuf o = { out, 0, cap }; der_tag(&o, CL_UNIV, 5); der_len(&o, 0); return o.n; }
+static size_t ref_der(const struct tval *t, uint8_t *out, size_t cap) { struct rbuf o = { out, 0, cap }; der_tag(&o, CL_UNIV, 5); x_len(&o, 0); return o.n; }
 static size_t ref_uper(const struct tval *t, uint8_t *out, size_t cap) { struct bitw w = { out, 0, cap }; return bw_finish(&w); }
 static size_t ref_oer(const struct tval *t, uint8_t *out, size_t cap) { (void)out; (void)cap; return 0; }
